@@ -187,6 +187,7 @@ def normalise_module(module_ast):
             node.test = inner
             node.body, node.orelse = node.orelse, node.body
             n += 1
+    n += _inline_adjacent_temporaries(module_ast)
     # "t = t op v"  ->  "t op= v"  for a plain name or an attribute chain (same value; the rules are written on the
     # augmented form)
     for node in ast.walk(module_ast):
@@ -203,6 +204,68 @@ def normalise_module(module_ast):
                     st.value.right._parent = new
                     stmts[ix] = new
                     n += 1
+    return n
+
+
+def _inline_adjacent_temporaries(module_ast):
+    """ "t = E" directly followed by the one and only use of t (in a simple statement) is read as that statement with E in
+    place of t: whether a sub-expression is given a name first is not part of any property.  Only locals assigned once
+    and read once are touched; the value keeps its own source position. """
+    n = 0
+    for func in [f for f in ast.walk(module_ast) if isinstance(f, (ast.FunctionDef, ast.AsyncFunctionDef))]:
+        stores = {}
+        loads = {}
+        for x in ast.walk(func):
+            if isinstance(x, ast.Name):
+                (stores if isinstance(x.ctx, (ast.Store, ast.Del)) else loads).setdefault(x.id, []).append(x)
+            elif isinstance(x, ast.ExceptHandler) and x.name:
+                stores.setdefault(x.name, []).append(x)
+        params = _all_params(func)
+        for holder in ast.walk(func):
+            for fld in ('body', 'orelse', 'finalbody'):
+                stmts = getattr(holder, fld, None)
+                if not isinstance(stmts, list) or not stmts or not isinstance(stmts[0], ast.stmt):
+                    continue
+                ix = 0
+                while ix + 1 < len(stmts):
+                    s1, s2 = stmts[ix], stmts[ix + 1]
+                    ok = isinstance(s1, ast.Assign) and len(s1.targets) == 1 and isinstance(s1.targets[0], ast.Name) and \
+                        isinstance(s2, (ast.Assign, ast.AugAssign, ast.Expr, ast.Return, ast.Raise, ast.AnnAssign))
+                    if ok:
+                        t = s1.targets[0].id
+                        ok = t not in params and len(stores.get(t, ())) == 1 and len(loads.get(t, ())) == 1
+                    if ok:
+                        use = loads[t][0]
+                        inside = any(y is use for y in ast.walk(s2))
+                        # not through a nested function / lambda / comprehension (evaluated later or repeatedly)
+                        nested = False
+                        if inside:
+                            for y in ast.walk(s2):
+                                if isinstance(y, (ast.Lambda, ast.FunctionDef, ast.ListComp, ast.SetComp, ast.DictComp, ast.GeneratorExp)) and any(z is use for z in ast.walk(y)):
+                                    nested = True
+                        ok = inside and not nested and isinstance(s1.value, (ast.Call, ast.Attribute, ast.Subscript, ast.BinOp, ast.Name, ast.Constant, ast.Compare, ast.BoolOp))
+                    if ok:
+                        par = getattr(use, '_parent', None)
+                        replaced = False
+                        if par is not None:
+                            for f2, v2 in ast.iter_fields(par):
+                                if v2 is use:
+                                    setattr(par, f2, s1.value)
+                                    replaced = True
+                                elif isinstance(v2, list):
+                                    for k, item in enumerate(v2):
+                                        if item is use:
+                                            v2[k] = s1.value
+                                            replaced = True
+                        if replaced:
+                            s1.value._parent = par
+                            del stmts[ix]
+                            del stores[t]
+                            del loads[t]
+                            n += 1
+                            ix = max(ix - 1, 0)
+                            continue
+                    ix += 1
     return n
 
 
